@@ -12,3 +12,14 @@ Definition ParseBlocksTree (src : bytes) : result (tree * list (bytes * (bytes *
   s <- ParseBlocks src ;;
   t <- to_tree (S (length (s_h s))) src (s_h s) 0%nat ;;
   Ok (t, c_refs (s_c s)).
+
+Require Import GM.model.InlineParse GM.model.DelimI.
+Definition InlineChildren (refs : list (bytes * (bytes * option bytes))) (src : bytes) (lines : list seg) : result (list tree) :=
+  inline_children space_table punct_table ToLinkReference url_table email_table
+    re_emailDomain re_openTag re_closeTag PunctRune SpaceRune refs src lines.
+
+(* parser.Parse of the default configuration, as the tree the renderer model takes *)
+Definition ParseTree (src : bytes) : result tree :=
+  x <- ParseBlocksTree src ;;
+  let '(t, refs) := x in
+  attach_inlines (InlineChildren refs src) t.
